@@ -952,12 +952,24 @@ def run(ctx):
     cases += gen_exact(rng, 120 if quick else 1200)
     cases += gen_generic_matrix(rng, 30 if quick else 300)
     cases += gen_tri(rng, 12 if quick else 100)
-    cases += gen_e2e(rng, quick, 91 if quick else 1300, 24 if quick else 100)
+    cases += gen_e2e(rng, quick, 91 if quick else 650, 24 if quick else 60)
     n = evaluate_all(ctx, exe, mexe, tab, cases, stats)
     ctx.note("wall: cases %.0fs (extracted model %.0fs, harness %.0fs)" % (ctx.elapsed() - t_ext, TIMES["model"], TIMES["impl"]))
     if tab is not None:
         probe_f7(ctx, exe, mexe, tab, stats)
         n += 1
+    if not quick:
+        # translator self-test: every seeded mutation of a scratch copy of the sources must change the table
+        import io
+        import contextlib
+        import t_eig
+        buf = io.StringIO()
+        with contextlib.redirect_stdout(buf):
+            ok = t_eig.self_test(ctx.repo)
+        stats["translator_self_test"] = "ok" if ok else buf.getvalue()[-400:]
+        if not ok:
+            ctx.unshown("translator t_eig self-test: a seeded edit of the selection expressions is not detected: "
+                        + buf.getvalue()[-300:])
     # search phase (CONVENTIONS 3.2): something is no longer shown and no concrete input yet
     if ctx.is_unshown():
         ctx.note("search phase: proof / translator / correspondence no longer checks; looking for a failing input")
